@@ -1,6 +1,8 @@
 /-
   C15 — Values map to legend colours monotonically and legends describe their data.
   Property theorems only (helper lemmas: Proofs/C15Lemmas.lean, Proofs/C15Obj.lean).
+  Round 4: graphic containers with a data type (Model/C15Graphic.lean): C15_typed_* at the end
+  (dictionary-order independence, least / greatest key, kept user dictionary / categorised parameters).
   Round 3: object state machines (Model/C15Obj.lean) for histories on one ColorRange / parameters
   object / legend; theorems C15_refused_preserves, C15_read_pure, C15_history_refines_fresh at the end.
   The model (Model/Color.lean, Model/Legend.lean) is tied to ladybug/color.py and legend.py by the
@@ -9,6 +11,7 @@
 -/
 import Ladybug.Proofs.C15Lemmas
 import Ladybug.Proofs.C15Obj
+import Ladybug.Proofs.C15Graphic
 
 namespace Col
 
@@ -870,3 +873,125 @@ example : ((lRun ⟨p010, none⟩ [.setP (.min (some 50)), .build [0, 5, 10], .s
     .obsL]).1.live.map (fun o => (o.par.min, o.par.max))) = some (some 0, some 10) := by decide +kernel
 
 end Obj15
+
+
+/-! ## Round 4: graphic containers with a data type (graphic.py 66-94, Model/C15Graphic.lean) -/
+
+namespace Leg
+
+open Col
+
+/-- Without a data type (or with a data type that has no categories) the typed constructor is the
+    plain `GraphicContainer` of `C15_graphic_value_colors`: all earlier theorems apply to it. -/
+theorem C15_typed_no_datatype (vals : List Rat) (p : Par) (a b c d : Rat) :
+    Graphic.makeTyped vals p none a b c d = Graphic.make vals p a b c d := by
+  unfold Graphic.makeTyped Graphic.make
+  cases h : Legend.make vals p with
+  | error e => rfl
+  | ok l =>
+    have hp : l.par = p := (C15_defaults vals p l h).2.1
+    simp only [hp]
+
+/-- A user-given ordinal dictionary and categorised parameters are left alone: the data type's
+    categories then change nothing (the sibling classes of parameters agree with the untyped
+    container). -/
+theorem C15_typed_kept (vals : List Rat) (p : Par) (ud : Option (List (Int × String))) (a b c d : Rat)
+    (h : p.ordinal.isSome ∨ p.cat.isSome) :
+    Graphic.makeTyped vals p ud a b c d = Graphic.make vals p a b c d := by
+  unfold Graphic.makeTyped Graphic.make
+  cases hm : Legend.make vals p with
+  | error e => rfl
+  | ok l =>
+    have hp : l.par = p := (C15_defaults vals p l hm).2.1
+    have happ : ordinalApplies l = false := by
+      unfold ordinalApplies
+      rw [hp]
+      rcases h with h | h
+      · cases ho : p.ordinal with
+        | none => rw [ho] at h; simp at h
+        | some _ => simp
+      · cases hc : p.cat with
+        | none => rw [hc] at h; simp at h
+        | some _ => simp
+    cases ud with
+    | none => simp only [hp]
+    | some dd => simp only [happ, hp, Bool.false_eq_true, if_false]
+
+/-- Aliasing / iteration order (seeded class f): the bounds and the segment count that an ordinal
+    data type contributes depend only on the SET of its keys — two dictionaries whose keys are a
+    permutation of each other (any insertion order) give the same minimum, maximum and count, and
+    are refused alike. -/
+theorem C15_typed_dict_order_independent (l : Legend) (d1 d2 : List (Int × String))
+    (h : (d1.map (·.1)).Perm (d2.map (·.1))) :
+    (l.applyOrdinal d1).map (fun r => (r.min, r.max, r.segCount)) =
+    (l.applyOrdinal d2).map (fun r => (r.min, r.max, r.segCount)) := by
+  unfold Legend.applyOrdinal
+  rw [sortKeys_perm h]
+  generalize ordinalBounds l.isMinDefault l.isMaxDefault l.par.segCountDefault l.min l.max
+    (sortKeys (d2.map (·.1))) = r
+  rcases r with e | ⟨mn, mx, _ | n⟩ <;> rfl
+
+/-- ... and so do the labels: looking a segment number up gives the same text for every order of
+    the dictionary entries (distinct keys). -/
+theorem C15_typed_labels_order_independent (d1 d2 : List (Int × String)) (h : d1.Perm d2)
+    (hnd : (d1.map (·.1)).Nodup) (nums : List Rat) :
+    nums.map (ordLookup d1) = nums.map (ordLookup d2) := by
+  apply List.map_congr_left
+  intro x _
+  exact ordLookup_perm h hnd x
+
+/-- Defaults derive from the data type: a defaulted minimum is the LEAST key of the unit
+    description and a defaulted maximum the GREATEST key (not the first / last entry as written);
+    given bounds are kept; the result always has min ≤ max. -/
+theorem C15_typed_bounds (imn imx cd : Bool) (mn0 mx0 : Rat) (ks : List Int) (mn mx : Rat)
+    (o : Option Nat) (h : ordinalBounds imn imx cd mn0 mx0 (sortKeys ks) = .ok (mn, mx, o)) :
+    (imn = true → ∃ k ∈ ks, (k : Rat) = mn ∧ ∀ j ∈ ks, k ≤ j) ∧ (imn = false → mn = mn0) ∧
+    (imx = true → ∃ k ∈ ks, (k : Rat) = mx ∧ ∀ j ∈ ks, j ≤ k) ∧ (imx = false → mx = mx0) ∧
+    mn ≤ mx := by
+  unfold ordinalBounds at h
+  split at h
+  · rename_i a b ha hb
+    have hres : a = mn ∧ b = mx ∧ ¬ b < a := by
+      split at h
+      · simp at h
+      · rename_i hlt
+        split at h
+        · split at h
+          · injection h with h; injection h with h1 h2; injection h2 with h2 h3
+            exact ⟨h1, h2, hlt⟩
+          · simp at h
+          · simp at h
+        · injection h with h; injection h with h1 h2; injection h2 with h2 h3
+          exact ⟨h1, h2, hlt⟩
+    obtain ⟨rfl, rfl, hle⟩ := hres
+    refine ⟨?_, ?_, ?_, ?_, not_lt.mp hle⟩
+    · intro hi
+      simp only [hi, if_true, Option.map_eq_some_iff] at ha
+      obtain ⟨k, hk, rfl⟩ := ha
+      exact ⟨k, (sortKeys_head hk).1, rfl, (sortKeys_head hk).2⟩
+    · intro hi
+      simp only [hi, Bool.false_eq_true, if_false] at ha
+      injection ha with ha; exact ha.symm
+    · intro hi
+      simp only [hi, if_true, Option.map_eq_some_iff] at hb
+      obtain ⟨k, hk, rfl⟩ := hb
+      exact ⟨k, (sortKeys_last hk).1, rfl, (sortKeys_last hk).2⟩
+    · intro hi
+      simp only [hi, Bool.false_eq_true, if_false] at hb
+      injection hb with hb; exact hb.symm
+  · simp at h
+
+/-- Non-vacuity: the built-in `ThermalComfort` description is written `{1: .., 0: ..}`; with all
+    defaults its container runs from 0 to 1 in two segments (the whole constructor is evaluated on
+    this input by the `#guard`s of Model/C15Graphic.lean). -/
+example : ordinalBounds true true true 1 1 (sortKeys [1, 0]) = .ok (0, 1, some 2) := by
+  rw [sortKeys_one_zero]; decide +kernel
+
+/-- The recorded defect (finding C15-graphic-ordinal-bound-not-a-key): a given bound that is not a
+    key of the unit description makes the container raise `ValueError` instead of keeping the
+    default segment count (the `except IndexError` of graphic.py:93 never matches). -/
+theorem C15_typed_bound_not_a_key_counterexample :
+    ordinalBounds false true true (1 / 2) 1 (sortKeys [1, 0]) = .error .value := by
+  rw [sortKeys_one_zero]; decide +kernel
+
+end Leg
